@@ -115,6 +115,83 @@ func init() {
 		n := fr.i.x.newDoc()
 		return n.doc
 	})
+	reg0("DocBytes", func(fr *frame, a []value) value {
+		return docRef{n: fr.i.x.docs[a[0].(int)].at(a[1].(string))}
+	})
+	reg0("DocAlias", func(fr *frame, a []value) value {
+		x := fr.i.x
+		base := x.docs[a[0].(int)]
+		pairs, _ := a[1].([]value)
+		v := &docNode{e: x, doc: len(x.docs), kids: map[string]*docNode{}, isTop: true, base: base,
+			rename: map[string]string{}, away: map[string]bool{}}
+		v.root = v
+		for k := 0; k+1 < len(pairs); k += 2 {
+			v.rename[pairs[k].(string)] = pairs[k+1].(string) // view key -> base key
+			v.away[pairs[k+1].(string)] = true
+		}
+		x.docs = append(x.docs, v)
+		return v.doc
+	})
+	reg0("DocWrapArray", func(fr *frame, a []value) value {
+		x := fr.i.x
+		inner := x.docs[a[0].(int)].at(a[1].(string))
+		v := &docNode{e: x, doc: len(x.docs), kids: map[string]*docNode{}, isTop: true, wrapOf: inner}
+		v.root = v
+		x.docs = append(x.docs, v)
+		return v.doc
+	})
+	reg("SameParsed", func(fr *frame, a []value) value {
+		ia, ib := a[0].(iface), a[1].(iface)
+		ign := map[string]bool{}
+		if xs, ok := a[2].([]value); ok {
+			for _, x := range xs {
+				ign[x.(string)] = true
+			}
+		}
+		if ia.t == nil || ib.t == nil || !types.Identical(ia.t, ib.t) {
+			return false
+		}
+		var read map[string]bool
+		if ign["@generator-reads"] {
+			read = fr.i.m.schemaFieldsRead()
+			var names []string
+			for k := range read {
+				names = append(names, k)
+			}
+			sortStrings(names)
+			fr.i.x.res.Notes = append(fr.i.x.res.Notes, "fields-read-by-generator="+strings.Join(names, ","))
+		}
+		filter := func(st *types.Struct, idx int, owner types.Type) bool {
+			name := st.Field(idx).Name()
+			if ign[name] {
+				return true
+			}
+			if read != nil {
+				if n, ok := types.Unalias(owner).(*types.Named); ok && n.Obj().Pkg() != nil && strings.HasSuffix(n.Obj().Pkg().Path(), "/pkg/schemas") {
+					return !read[name] && st.Field(idx).Exported() || !st.Field(idx).Exported()
+				}
+			}
+			return false
+		}
+		r := fr.i.deepEq(ia.t, ia.v, ib.v, map[[2]*value]bool{}, filter)
+		if r.t != "true" {
+			// name the top-level fields that are not syntactically equal (diagnostics)
+			if st, ok := ia.t.Underlying().(*types.Struct); ok {
+				var diff []string
+				sa, sb := ia.v.(structure), ib.v.(structure)
+				for k := 0; k < st.NumFields(); k++ {
+					if filter(st, k, ia.t) {
+						continue
+					}
+					if fr.i.deepEq(st.Field(k).Type(), sa[k], sb[k], map[[2]*value]bool{}, filter).t != "true" {
+						diff = append(diff, st.Field(k).Name())
+					}
+				}
+				fr.i.x.res.Notes = append(fr.i.x.res.Notes, "fields-not-identical="+strings.Join(diff, ","))
+			}
+		}
+		return simplifyBool(r)
+	})
 	reg("Unmarshal", func(fr *frame, a []value) value {
 		x := fr.i.x
 		s := x.s2list[a[0].(int)]
